@@ -101,14 +101,17 @@ def parseREdit (j : Json) : Except String REdit := do
   pure { position := ← (← nth l 0).getNat?, deleted := ← (← nth l 1).getNat?,
          inserted := ← parseByteArr (← nth l 2) }
 
+/-- the repaired `make_edit` (`makeEditFixed`; the pinned `makeEdit` is a regression fact in
+`Props/C06.lean`).  The `.error` branch is unreachable (`rewrite_makeEditFixed_total`). -/
 def opRwMakeEdit : Handler := fun a => do
   let old ← parseByteArr (← a.getObjVal? "old")
   let edits ← (← arrOf (← a.getObjVal? "edits")).mapM parseREdit
   let offset ← getNat a "offset"
-  match makeEdit old edits offset with
+  match makeEditFixed old edits offset with
   | .ok r => pure (Json.mkObj [("ok", jByteArr r)])
   | .error _ => pure (Json.str "panic")
 
+/-- the repaired `Rewrite::compute` (`rewriteComputeFixed`, total: `rewrite_computeFixed_total`) -/
 def opRwCompute : Handler := fun a => do
   let old ← parseByteArr (← a.getObjVal? "old")
   let edits ← (← arrOf (← a.getObjVal? "edits")).mapM parseREdit
@@ -117,7 +120,7 @@ def opRwCompute : Handler := fun a => do
     | .ok .null => pure none
     | .ok v => do pure (some (← jsonBytes v))
     | .error _ => pure none
-  match rewriteCompute old edits start joiner with
+  match rewriteComputeFixed old edits start joiner with
   | .ok r => pure (jBytes r)
   | .error _ => pure (Json.str "panic")
 
